@@ -147,6 +147,11 @@ impl Run {
         }
     }
 
+    /// take what was recorded so far (replay modes that re-run a small family)
+    pub fn take_violations(&self) -> Vec<Violation> {
+        std::mem::take(&mut *self.violations.lock().unwrap())
+    }
+
     pub fn violations_extend(&self, vs: Vec<Violation>) {
         for v in vs {
             self.violation(v);
